@@ -459,6 +459,21 @@ theorem print_is_the_write_level_program (env : Env) (i hid : Nat) (msg : Option
        (Print.printP Gen.printProgram (oracleOf (env.stderr i hid) (strFailsOf env msg))).escapes) :=
   print_eq_printP env i hid msg kind src
 
+/-- `catch_true_reports_iff_failed` without its hypothesis "stderr works": for EVERY stderr condition (working,
+    absent, failing as a whole, breaking off at any chunk with any error) what a failing message leaves on stderr is
+    exactly the prefix of its report that stderr accepts – one complete report, a partial one, or nothing -/
+theorem catch_true_report_is_accepted_prefix (env : Env) (c : Cfg) (n i : Nat) (s : HState) (e : Err)
+    (hc : c.catch_ = true) (hq : Quiet s) (hre : env.reenter i c.id = [])
+    (hf : outcome env c i s.stopped = .failed e ∨ outcome env c i s.stopped = .deliveredThenFailed e) :
+    (emitD env c n i s).ev =
+      eventsOf (Print.printP Gen.printProgram (oracleOf (env.stderr i c.id) (env.strFails i))) c.id (some i) e .emit ∧
+    (emitD env c n i s).res =
+      resOf (Print.printP Gen.printProgram (oracleOf (env.stderr i c.id) (env.strFails i))).escapes := by
+  rw [emit_characterised env c n i s hq hre]
+  unfold expected handle
+  rcases hf with hf | hf <;> simp only [hf, hc, if_true] <;>
+    rw [print_is_the_write_level_program env i c.id (some i) e .emit] <;> exact ⟨rfl, rfl⟩
+
 /-- in particular the enqueue worker survives a stderr that breaks off in the middle of its report, at any chunk,
     for every queue content (instance of `worker_never_dies`: `StderrTame` covers `.failsAt c .osError`) -/
 theorem worker_survives_report_breaking_off (env : Env) (c : Cfg) (ch : Chunk) (items : List QItem) (s : HState)
@@ -682,5 +697,35 @@ example :
     (stopH exEnv { id := 3, enqueue := true, kind := .stream } 9
       { workerAlive := true, queue := [.msg 4, .bad 5 .typeError, .msg 6] }).ev =
       [.report 3 none .typeError false .worker] := by decide
+
+/-- a history with a failing `format_map`, a `remove()` of everything and logging afterwards: the model of the code
+    and the specification's history agree on registry, events and results (an instance of `history_refines_spec`,
+    evaluated by the kernel on both sides) -/
+example :
+    let w0 : World := [({ id := 0 } : Cfg), { id := 1, catch_ := false }, { id := 2, kind := .streamFlush, enqueue := true }].foldl
+      (fun w c => addW c w) {}
+    let ops : List Op := [.log 0, .complete, .remove 1 3, .log 1, .removeAll 4, .log 2]
+    (runW exEnv 2 ops w0).2.2 = [.raised .keyError, .ok, .ok, .ok, .ok, .ok] ∧
+    (runW exEnv 2 ops w0).2.2 = (specRunW exEnv ops w0).2.2 ∧
+    (runW exEnv 2 ops w0).2.1 = (specRunW exEnv ops w0).2.1 ∧
+    (runW exEnv 2 ops w0).1.reg = [] ∧ (specRunW exEnv ops w0).1.reg = [] := by decide
+
+/-- a coroutine sink with two scheduled tasks, the first of which fails: `complete()` returns normally, the failure
+    is reported once, the other message is delivered (non-vacuity of `complete_never_raises_for_failing_tasks`) -/
+example :
+    let env := { exEnv with fault := fun i h st => if i = 7 ∧ h = 4 ∧ st = .coroBody then some .valueError else none }
+    (completeH env { id := 4, kind := .coroutine } { tasks := [7, 8] }).res = .ok ∧
+    (completeH env { id := 4, kind := .coroutine } { tasks := [7, 8] }).ev =
+      [.report 4 (some 7) .valueError false .task] ∧
+    (completeH env { id := 4, kind := .coroutine } { tasks := [7, 8] }).st = { sink := [8] } := by decide
+
+/-- the worker facing a stderr that breaks off at the record line of every report: it goes on, the partial reports
+    are what stderr accepted (non-vacuity of `worker_survives_report_breaking_off`) -/
+example :
+    let env := { exEnv with stderr := fun _ _ => .failsAt .record .osError }
+    (workerRun env { id := 2, enqueue := true } [.bad 7 .other, .msg 0, .msg 1] { workerAlive := true }).1 =
+      { workerAlive := true, sink := [0, 1] } ∧
+    (workerRun env { id := 2, enqueue := true } [.bad 7 .other, .msg 0, .msg 1] { workerAlive := true }).2 =
+      [.partialReport 2 none false [.header] .worker] := by decide
 
 end C04
